@@ -407,13 +407,15 @@ pub fn run_stroke_fp(l: &[i128]) -> Vec<i128> {
     };
     let mut paint = Paint::default();
     paint.set_color_rgba8(255, 255, 255, 255);
-    paint.anti_alias = l[4] != 0;
+    paint.anti_alias = l[4] & 1 != 0;
+    // a uniform scale of the draw call (bits 1.. of the aa argument): the footprint is the scaled path grown by the scaled outset
+    let sc = [1.0f32, 2.0, 4.0, 0.5][((l[4] >> 1) as usize) % 4];
     let stroke = Stroke { width, miter_limit: miter, line_join: join, line_cap: cap, ..Stroke::default() };
     let mut pm = match Pixmap::new(w, h) {
         Some(p) => p,
         None => return vec![-3],
     };
-    pm.stroke_path(&path, &paint, &stroke, Transform::identity(), None);
+    pm.stroke_path(&path, &paint, &stroke, Transform::from_scale(sc, sc), None);
     let mut k = 1.0f32;
     if join == LineJoin::Miter {
         k = k.max(miter);
@@ -426,8 +428,11 @@ pub fn run_stroke_fp(l: &[i128]) -> Vec<i128> {
     if cap == LineCap::Square {
         k = k.max(std::f32::consts::SQRT_2);
     }
-    let grow = (width * 0.5).max(0.5) * k + 1.0 + 0.5;
-    let bb = path.bounds();
+    let grow = (width * sc * 0.5).max(0.5) * k + 1.0 + 0.5;
+    let bb = match tiny_skia::Rect::from_ltrb(path.bounds().left() * sc, path.bounds().top() * sc, path.bounds().right() * sc, path.bounds().bottom() * sc) {
+        Some(r) => r,
+        None => return vec![-8],
+    };
     let (mut painted, mut stray, mut sx, mut sy) = (0i128, 0i128, -1i128, -1i128);
     for y in 0..h {
         for x in 0..w {
